@@ -5,6 +5,10 @@ import os
 import sys
 sys.path.insert(0, os.path.dirname(os.path.abspath(__file__)))
 import e2defs
+import e2edit  # noqa: F401  (registers its harness classes)
+import e2ver  # noqa: F401
+import e2sort  # noqa: F401
+import e2index  # noqa: F401
 from e2lib import load_program
 
 
